@@ -268,7 +268,7 @@ func init() {
 				r.Inconcl = append(r.Inconcl, fmt.Sprintf("too little observed: %v", r.Counters))
 			}
 		},
-		Rule: "cases = (host version set, plugin version set) over versions {0..4}, each side laid out through VersionedPlugins, the legacy ProtocolVersion+Plugins pair, or both; per-version wire protocol all net/rpc, all gRPC or mixed; real subprocess per pair. Each set's implementations carry a version tag that the dispensed plugin and the host wrapper report. Half the cases also run the plugin directly with a chosen PLUGIN_PROTOCOL_VERSIONS (normal, unset, trailing comma, invalid entries) to read the raw announced line. Quick: all 31 diagonals + 170 seeded pairs biased to |H ∩ P| >= 2 and to disjoint sets; thorough: exhaustive over all 31x31 subset pairs x 2 layouts. Class = (|H|, |P|, |H∩P|, layouts, raw run, version 0 involved)",
+		Rule:        "cases = (host version set, plugin version set) over versions {0..4}, each side laid out through VersionedPlugins, the legacy ProtocolVersion+Plugins pair, or both; per-version wire protocol all net/rpc, all gRPC or mixed; real subprocess per pair. Each set's implementations carry a version tag that the dispensed plugin and the host wrapper report. Half the cases also run the plugin directly with a chosen PLUGIN_PROTOCOL_VERSIONS (normal, unset, trailing comma, invalid entries) to read the raw announced line. Quick: all 31 diagonals + 170 seeded pairs biased to |H ∩ P| >= 2 and to disjoint sets; thorough: exhaustive over all 31x31 subset pairs x 2 layouts. Class = (|H|, |P|, |H∩P|, layouts, raw run, version 0 involved)",
 		Assumptions: []string{"sets registered under one version use the same wire protocol on both sides (otherwise nothing could work)", "GRPCServer is configured whenever any plugin-side set is gRPC"},
 	})
 }
